@@ -91,7 +91,7 @@ fn timer_check(src: &Src, pre: &Pre, before: &sh::SourceState, acts: &Acts) {
 sharness! {
     #[kani::unwind(30)]
     fn c11_timer() {
-        stubs::symbolic_clock();
+        frozen_clock();
         let (mut src, pre) = any_source(PvClass::V4Family);
         let before = sh::state(&src);
         let acts = timer_step!(v4fam, src, pre);
@@ -123,17 +123,19 @@ fn answer_body(src: &mut Src, pre: &Pre, pkt: &[u8]) {
         assert!(post.reach & 1 == 1 && !post.have_deny_rstr_response, "C11: measured => reachable, deny cleared");
     } else {
         assert!(post.reach == pre.reach, "C11: reach only changes through usable answers");
+        assert!(!pre.have_deny || post.have_deny_rstr_response, "C11: the deny memory is only cleared by a usable answer (not by RATE / NTSN / unknown kiss / wrong mode / bad stratum)");
     }
     assert!(post.tries == pre.tries, "C11: incoming packets do not count as polls");
     assert!(acts.n == 0, "C11: no actions");
     kani::cover!(usable && pre.have_deny && pre.reach == 0, "usable answer revives an unreachable, denied source");
-    kani::cover!(n == 0 && pre.have_deny && post.have_deny_rstr_response, "unusable packet keeps the deny memory");
+    kani::cover!(n == 0 && pre.have_deny && post.have_deny_rstr_response && must_match(pre, pkt, after_t) && stratum_byte(pkt) == 1 && mode_bits(pkt) != 4, "matching answer in a wrong mode keeps the deny memory");
+    kani::cover!(n == 0 && pre.have_deny && must_match(pre, pkt, after_t) && stratum_byte(pkt) == 0, "matching KISS answer keeps the deny memory");
 }
 
 sharness! {
     #[kani::unwind(12)]
     fn c11_answer() {
-        stubs::symbolic_clock();
+        frozen_clock();
         let (mut src, pre) = any_source(PvClass::V4Family);
         let mut p = any_pkt4();
         let b0: u8 = kani::any();
@@ -148,7 +150,7 @@ sharness! {
 sharness! {
     #[kani::unwind(30)]
     fn c11_answer_v5() {
-        stubs::symbolic_clock();
+        frozen_clock();
         let (mut src, pre) = any_source(PvClass::V5Family);
         let mut p = any_pkt5();
         let sel: u8 = kani::any();
